@@ -427,6 +427,48 @@ def minimise(mod, case, res, budget_runs=150, budget_s=60.0):
                 best, best_res = cand, r
         notes.append('schedule/fault dependent: needs sched=%s' % jdump(
             {k: v for k, v in best['sched'].items() if k != 'seed'}))
+        # schedule shrinking: neutralise blocks of the tape (0.5 = "median" draw) while the
+        # same violation class persists; what is left non-neutral is what the failure needs
+        tape = best_res['tape']
+        nested = bool(tape) and isinstance(tape[0], list)
+        flat = [x for t in tape for x in t] if nested else list(tape)
+        lens = [len(t) for t in tape] if nested else None
+
+        def rebuild(fl):
+            if not nested:
+                return list(fl)
+            out, p = [], 0
+            for n in lens:
+                out.append(fl[p:p + n])
+                p += n
+            return out
+
+        def still_tape(fl):
+            nonlocal runs
+            runs += 1
+            r = run_case(mod, best, tape=rebuild(fl))
+            return r if (r['status'] == 'violation' and r['kind'] == kind) else None
+        r0 = still_tape(flat) if flat else None
+        if r0 is not None:
+            block = max(1, len(flat) // 2)
+            neutral = 0
+            while block >= 1 and runs < budget_runs + 60 and _real_time() - t0 < budget_s + 30:
+                i = 0
+                while i < len(flat) and runs < budget_runs + 60:
+                    if any(x != 0.5 for x in flat[i:i + block]):
+                        cand = flat[:i] + [0.5] * len(flat[i:i + block]) + flat[i + block:]
+                        r = still_tape(cand)
+                        if r is not None:
+                            flat = cand
+                            r0 = r
+                    i += block
+                if block == 1:
+                    break
+                block //= 2
+            neutral = sum(1 for x in flat if x == 0.5)
+            best_res = dict(r0)
+            best_res['tape'] = rebuild(flat)
+            notes.append('tape shrunk: %d of %d scheduler draws neutralised' % (neutral, len(flat)))
     return best, best_res, runs, notes
 
 
